@@ -1,6 +1,6 @@
 (* C14/Examples.v — non-vacuity: concrete, non-trivial instances of the
    hypotheses of the property theorems, and a few worked dispatches. *)
-From XV Require Import lib.Bytes gen.Mux C14.Model C14.Proofs.
+From XV Require Import lib.Bytes gen.Mux C14.Model C14.Proofs C14.Reentry.
 
 Definition nsc : bytes := str "jabber:client".
 Definition sep_eof : term := mkterm false false.   (* (nil, io.EOF) after the last token: xml.Decoder *)
@@ -126,6 +126,31 @@ Example ex_iq_truncated :
   handle ex_reg nsc (nsc, str "iq") [mkattr [] (str "type") (str "get") None] [TStart xa] with_eof [mkbeh 9 false] =
   mkout [] [mkreply nsc (str "error") None None [] [] (str "cancel") (str "service-unavailable")] RetErr.
 Proof. vm_compute. reflexivity. Qed.
+
+(* re-entrancy: the handler chosen for the first child of two_children reads two
+   tokens, hands an inner message (one child yb, handled by 7, which reads all of
+   it) to the same mux, reads on to the end; the handler of the second child is
+   still replayed the whole OUTER stanza *)
+Definition inner_toks : list tok := [TStart yb; TText false; TEnd; TEnd].
+Definition inner_elem : elem := mkelem msg_name chat_attrs inner_toks with_eof [mkbeh 99 false].
+Definition outer_elem : elem :=
+  mkelem msg_name chat_attrs two_children sep_eof [mkbehn 99 false (Some (2, 0)); mkbeh 99 false].
+Example ex_reentrant :
+  handle_in ex_reg nsc [inner_elem] outer_elem =
+  mkout [EvMsg 2 (str "chat") (TStart msg_name :: two_children);
+         EvNested 0 [EvMsg 7 (str "chat") (TStart msg_name :: inner_toks)] [] RetOk;
+         EvMsg 7 (str "chat") (TStart msg_name :: two_children)] [] RetOk.
+Proof. vm_compute. reflexivity. Qed.
+Example ex_reentrant_strip :
+  strip (handle_in ex_reg nsc [inner_elem] outer_elem) =
+  handle ex_reg nsc msg_name chat_attrs two_children sep_eof (e_script outer_elem).
+Proof. vm_compute. reflexivity. Qed.
+(* a request for a stanza that is not there is ignored *)
+Example ex_reentrant_none : handle_in ex_reg nsc [] outer_elem = solo ex_reg nsc outer_elem.
+Proof. vm_compute. reflexivity. Qed.
+(* readers that have reported their end stay there (hypothesis of take_n_split) *)
+Example ex_sticky : sticky (b_token with_eof) /\ sticky (iq_reader with_err) /\ sticky (u_token sep_eof).
+Proof. repeat split; [apply sticky_b|apply sticky_iq|apply sticky_u]. Qed.
 
 (* IQs *)
 Definition iq_name : name := (nsc, str "iq").
